@@ -47,16 +47,17 @@ def opts_strategy(kind):
         return st.fixed_dictionaries({"emit_default_doc": b, "word_wrap": b})
     if kind in ("function", "method"):
         ft = st.just("static") if kind == "function" else st.sampled_from(("self", "cls"))
+        # type_from_ir: the kind is not passed to the emitter but taken from the description's own "type" entry
         return st.fixed_dictionaries({"function_type": ft, "inline_types": b, "emit_as_kwonlyargs": b,
                                       "indent_level": st.integers(0, 2), "emit_default_doc": b, "emit_separating_tab": b,
-                                      "word_wrap": b})
+                                      "word_wrap": b, "type_from_ir": b})
     return st.fixed_dictionaries({"emit_default_doc": b, "word_wrap": b, "wrap_description": b})
 
 
 def valid_opts(kind, o):
     try:
         d = default_opts(kind)
-        if set(o) != set(d):
+        if set(o) - {"type_from_ir"} != set(d):  # (`type_from_ir` is optional: older replays do not carry it)
             return False
         for k, v in o.items():
             if k == "function_type":
@@ -81,8 +82,11 @@ def emit_node(kind, ir, opts):
     if kind == "class":
         return emit.class_(ir, class_name=CLASS_NAME, emit_default_doc=opts["emit_default_doc"], word_wrap=opts["word_wrap"])
     if kind in ("function", "method"):
+        ftype = opts["function_type"]
+        if opts.get("type_from_ir"):
+            ir["type"], ftype = ftype, None
         return emit.function(
-            ir, function_name=FUNC_NAME, function_type=opts["function_type"], word_wrap=opts["word_wrap"],
+            ir, function_name=FUNC_NAME, function_type=ftype, word_wrap=opts["word_wrap"],
             emit_default_doc=opts["emit_default_doc"], indent_level=opts["indent_level"],
             emit_separating_tab=opts["emit_separating_tab"], inline_types=opts["inline_types"],
             emit_as_kwonlyargs=opts["emit_as_kwonlyargs"],
